@@ -295,8 +295,21 @@ fn compile_mint_block(tx: &tir::Tx) -> Result<Option<primitives::Mint>, Error> {
     }
 }
 
+/// Removes repeated entries of a set-like field, keeping the first occurrence of each.
+fn without_duplicates<T: PartialEq>(items: Vec<T>) -> Vec<T> {
+    let mut unique = Vec::with_capacity(items.len());
+
+    for item in items {
+        if !unique.contains(&item) {
+            unique.push(item);
+        }
+    }
+
+    unique
+}
+
 fn compile_inputs(tx: &tir::Tx) -> Result<Vec<primitives::TransactionInput>, Error> {
-    let refs = tx
+    let mut refs: Vec<_> = tx
         .inputs
         .iter()
         .flat_map(|x| coercion::expr_into_utxo_refs(&x.utxos))
@@ -306,6 +319,10 @@ fn compile_inputs(tx: &tir::Tx) -> Result<Vec<primitives::TransactionInput>, Err
             index: x.index as u64,
         })
         .collect();
+
+    // the UTxOs of an input come out of a hash set: emit them in the ledger's canonical order so
+    // that the same template always compiles to the same bytes
+    refs.sort_by_key(|x| (x.transaction_id, x.index));
 
     Ok(refs)
 }
@@ -478,11 +495,11 @@ fn compile_reference_inputs(tx: &tir::Tx) -> Result<Vec<primitives::TransactionI
         })
         .collect();
 
-    Ok(refs)
+    Ok(without_duplicates(refs))
 }
 
 fn compile_collateral(tx: &tir::Tx) -> Result<Vec<TransactionInput>, Error> {
-    Ok(tx
+    let refs = tx
         .collateral
         .iter()
         .filter_map(|collateral| collateral.utxos.as_option())
@@ -492,7 +509,9 @@ fn compile_collateral(tx: &tir::Tx) -> Result<Vec<TransactionInput>, Error> {
             transaction_id: x.txid.as_slice().into(),
             index: x.index as u64,
         })
-        .collect())
+        .collect();
+
+    Ok(without_duplicates(refs))
 }
 
 fn compile_required_signers(tx: &tir::Tx) -> Result<Option<primitives::RequiredSigners>, Error> {
@@ -506,7 +525,9 @@ fn compile_required_signers(tx: &tir::Tx) -> Result<Option<primitives::RequiredS
         .map(coercion::expr_into_address_keyhash)
         .collect::<Result<Vec<_>, _>>()?;
 
-    Ok(primitives::RequiredSigners::from_vec(hashes))
+    Ok(primitives::RequiredSigners::from_vec(without_duplicates(
+        hashes,
+    )))
 }
 
 fn compile_validity(validity: Option<&tir::Validity>) -> Result<(Option<u64>, Option<u64>), Error> {
